@@ -2623,6 +2623,11 @@ PPL_OUTPUT_DEFINITIONS(MIP_Problem)
 
 bool
 PPL::MIP_Problem::ascii_load(std::istream& s) {
+  // Start from a pristine problem: the data below is appended.
+  {
+    MIP_Problem pristine;
+    m_swap(pristine);
+  }
   std::string str;
   if (!(s >> str) || str != "external_space_dim:") {
     return false;
